@@ -238,6 +238,9 @@ pub fn build_table_from_data(
             max_symbol = idx;
         }
     }
+    // A table over a single symbol (symbol 0, e.g. when every literal length in a block is 0) leaves the
+    // 0-numbit avoidance below without a second symbol to move probability to. Always include symbol 1.
+    let max_symbol = max_symbol.max(1);
     build_table_from_counts(&counts[..=max_symbol], max_log, avoid_0_numbit)
 }
 
